@@ -30,7 +30,43 @@ def M(optimize=None, stubs=None, key=None):
         ns.stubs = stubs or {}
         ns.cardutil = sys.modules['cardutil']
         _CTX[k] = ns
+        _snapshot_module_state(ns)
     return _CTX[k]
+
+
+_MODULE_STATE = []      # (container, shallow copy taken right after import)
+
+
+def _snapshot_module_state(ns):
+    """every path starts from the state a fresh process has after `import cardutil...`: mutable containers at module and class level
+    (a memo table a change may add, the top level of the packaged configuration dictionary) are put back to their content at import time"""
+    import copy
+    import inspect
+    for mod in ns.ctx.modules.values():
+        owners = [mod] + [c for c in vars(mod).values() if inspect.isclass(c) and getattr(c, '__module__', None) == mod.__name__]
+        for o in owners:
+            for name, val in list(vars(o).items()):
+                if name.startswith('__'):
+                    continue
+                if type(val) in (dict, list, set, bytearray) and not any(val is c for c, _ in _MODULE_STATE):
+                    _MODULE_STATE.append((val, copy.copy(val)))
+
+
+def _restore_module_state():
+    for cont, snap in _MODULE_STATE:
+        if cont == snap:
+            continue
+        if isinstance(cont, dict):
+            cont.clear()
+            cont.update(snap)
+        elif isinstance(cont, set):
+            cont.clear()
+            cont.update(snap)
+        else:
+            cont[:] = snap
+
+
+core.PATH_RESET.append(_restore_module_state)
 
 
 def opaque(name, kind, lo, hi):
